@@ -637,3 +637,21 @@ CHECKS["C18"]["text"] += (
     "must be left unchanged.")
 CHECKS["C11"]["text"] += (
     " The empty byte string is among the rejected inputs.")
+CHECKS["C01"]["text"] += (
+    " Metadata write calls are a specification of their own "
+    "(WriterMetaSpec: last write wins key by key, reset discards): all "
+    "sessions of open/store_metadata/close over eight key classes whose "
+    "payload variants have different Python types are replayed.")
+CHECKS["C11"]["text"] += (
+    " Storage pipelines include a second writer session that overwrites "
+    "every key with another payload variant (user entries change type).")
+CHECKS["C02"]["text"] += (
+    " A source file whose image feature is shorter than its scalar "
+    "features must be exported with all features limited to the common "
+    "events, in every selection mode.")
+CHECKS["C04"]["text"] += (
+    " Every second root change leaves [calculation] alone, so that "
+    "ancillary features of the children depend on the refresh alone.")
+CHECKS["C06"]["text"] += (
+    " A quarter of the histories are also observed through a hierarchy "
+    "child that is refreshed before every observation.")
